@@ -128,6 +128,7 @@ package memfs
 
 //@ type MemFS
 //@   inv[C03,C05] self.user != nil && self.lastId != nil && self.rootNode != nil
+//@   inv[C01,C05,C17] errsOK(self)
 //@   inv[C05,C17] forall n string :: dom(self.volumes, n) ==> self.volumes[n] != nil
 
 // ---- memfs_internal.go: permission checks and creation formulas (C03) --------------------------
@@ -202,12 +203,12 @@ package memfs
 //@ pred errsOK(v *MemFS) := v.err.FileExists != nil && v.err.NoSuchDir != nil && v.err.NoSuchFile != nil && v.err.NotADirectory != nil && v.err.PermDenied != nil && v.err.TooManySymlinks != nil && v.err.FileExists != v.err.NoSuchDir && v.err.FileExists != v.err.NoSuchFile && v.err.FileExists != v.err.NotADirectory && v.err.FileExists != v.err.PermDenied && v.err.FileExists != v.err.TooManySymlinks
 
 //@ func (*MemFS).searchNode
-//@   requires errsOK(vfs)
 //@   ensures[C01,C05,C07] pi != nil && err != nil
 //@   ensures[C01,C05,C07] err == vfs.err.FileExists ==> parent != nil && child != nil
 //@   ensures[C01,C05,C07] child != nil ==> parent != nil
 //@   ensures[C01,C05,C07] child == nil ==> err == vfs.err.NoSuchDir || err == vfs.err.NoSuchFile
-//@   ensures[C01,C05] child == nil && parent != nil ==> piOnPart(pi) && !dom(parent.children, substr(pi.path, pi.start, pi.end)) || parent.children[substr(pi.path, pi.start, pi.end)] == nil
+//@   ensures[C01,C05,C07] child == nil && parent != nil ==> piOnPart(pi)
+//@   ensures[C01,C05,C07] piOnPart(pi) || (child is *dirNode && child.(*dirNode) == parent && pi.start == pi.end)
 //@   ensures[C01,C05] child == nil && parent != nil ==> (err == vfs.err.NoSuchFile <==> pi.end == len(pi.path)) || vfs.err.NoSuchFile == vfs.err.NoSuchDir
 //@   ensures[C04] err == vfs.err.FileExists && child is *symlinkNode ==> slMode == slmLstat
 //@   ensures[C11] pi.vfs == vfs
